@@ -37,18 +37,21 @@ type c19src struct {
 // equals once.
 func H_C19_Propagate(v *verifrt.T) {
 	n := 2 + v.Choose("extra-source", v.Param("SOURCES", 3)-1)
+	opts := v.Param("OPTS", 2) // 1: threads and stat-payload only, 2: all five options
 	var own []c19src
 	conf := &ClientConf{}
 	for k := 0; k < n; k++ {
 		var o c19src
-		o.givenThreads, o.givenMinAge, o.givenHidden = v.Bool("given-threads"), v.Bool("given-min-age"), v.Bool("given-hidden")
-		o.givenStat, o.givenBackoff = v.Bool("given-stat"), v.Bool("given-backoff")
+		o.givenThreads, o.givenStat = v.Bool("given-threads"), v.Bool("given-stat")
 		o.threads = v.Int("threads")
-		o.minAge = v.Duration("min-age", 0, 1000*time.Hour)
-		o.hidden = v.Bool("hidden")
 		o.stat = v.Bool("stat")
-		// error-backoff values from a small grid (floats compare exactly)
-		o.backoff = []float64{0, 0.5, 2}[v.Choose("backoff", 3)]
+		if opts >= 2 {
+			o.givenMinAge, o.givenHidden, o.givenBackoff = v.Bool("given-min-age"), v.Bool("given-hidden"), v.Bool("given-backoff")
+			o.minAge = v.Duration("min-age", 0, 1000*time.Hour)
+			o.hidden = v.Bool("hidden")
+			// error-backoff values from a small grid (floats compare exactly)
+			o.backoff = []float64{0, 0.5, 2}[v.Choose("backoff", 3)]
+		}
 		// an option that is not given is absent from the document: zero value
 		v.Assume(verifrt.Or(o.givenThreads, o.threads == 0))
 		v.Assume(verifrt.Or(o.givenMinAge, o.minAge == 0))
